@@ -20,15 +20,21 @@ PROP = {'streams': [('c16', 600, 24000)],
               'level_sound_partial',
               'level_sound_fragment',
               'level_sound_authorization',
-              'level_sound_sets'],
- 'assumptions': ['level_sound_partial / level_sound_authorization are proved for the WHOLE mirrored checker but on the typed AST and under two semantic '
-                 'hypotheses that typechecker soundness would provide: `Kinds` (the Entity/Record annotation of every GetAttr/HasAttr target agrees '
-                 'with the value it evaluates to) and `Faithful` (the typed AST with the typechecker\'s short-circuit simplifications evaluates like '
-                 'the policy condition, on store and slice); they are DERIVED from typechecker acceptance + conformance only for the '
-                 'connective-free part of the C03 fragment (`level_sound_fragment`: ./has chains through entities and records, literals, variables, '
-                 '!, -, + - *, ==, like, is); for the rest their derivation from typechecker acceptance + conformance (the full statement '
-                 '`level_sound`, a def : Prop) is NOT proved - C03 proves typechecker soundness for a fragment only; that gap is covered by the '
-                 'implementation-level search (slice vs full store on every generated accepted policy set)',
+              'level_sound_sets',
+              'levelOk_env',
+              'level_sound_env',
+              'levelOk_policy',
+              'level_sound_policy',
+              'level_sound_strict',
+              'level_sound_linked',
+              'level_sound_strict_sets'],
+ 'assumptions': ['`level_sound_strict` proves the full statement `level_sound` (static policy sets, every construct, strict mode) from typechecker '
+                 'acceptance + level acceptance + conformance alone: `Kinds` and `Faithful` (on store and slice) are derived from C03\'s strict-mode '
+                 'typechecker soundness. Its premises are C03\'s: SchemaWF2 (true of every schema Rust constructs), ActionsPresent (the store holds '
+                 'the schema\'s action entities, as Entities::from_entities(.., schema) guarantees; without it the statement is false in the model - '
+                 'counterexample in Thm/C16.lean), record literals with distinct keys (a map in Rust), no slots in a static policy; linked templates: '
+                 '`level_sound_policy` per policy (request environment among those checked, slots bound accordingly); permissive mode: '
+                 '`level_sound_env` on C03\'s permissive fragment only',
                  'the request is for the environment\'s action (`req.action = act`): the action-literal exception of the checker',
                  'the typed AST is produced by the model\'s `annotate` (built on the C03 typechecker model `typeOf`); expressions outside that model '
                  '(unknowns, undeclared entity literals) answer (outside-model); templates are not generated for this property (static policies only)',
@@ -42,12 +48,10 @@ TEXT = ('Lean model of level validation: `annotate` (the type-annotated AST the 
  'hops of principal, action, resource and the uids in the context, each kept whole). PROVED for the whole mirrored checker: acceptance is monotone in '
  'n (expression and policy level); the slice is monotone and a sub-store of whole entities; key lemma: a dereference target of level k only evaluates '
  'to entities within k hops; `level_sound_partial`: no level errors at n => the typed expression evaluates over the level-n slice exactly as over the '
- 'store, lifted to isAuthorized (same decision, determining and erroring policies) - under the hypotheses that the Entity/Record annotations agree '
- 'with run-time values and that the typed AST evaluates like the condition (consequences of typechecker soundness; DERIVED from typechecker '
- 'acceptance + conformance for the connective-free part of the C03 fragment - `level_sound_fragment`: ./has chains through entities and records, '
- 'literals, variables, !, -, + - *, ==, like, is - and only assumed beyond it: the full statement `level_sound` is stated, not proved). Differential run: validate_with_level verdicts for n = 0..4 per policy and the level-n slice vs the model; '
+ 'store (`Kinds`: annotations agree with run-time values), lifted to isAuthorized (same decision, determining and erroring policies). THE FULL STATEMENT `level_sound` IS PROVED (`level_sound_strict`, all constructs): for every static policy set accepted by the strict typechecker model and by `levelPolicy n`, every conformant request and conformant store holding the schema\'s action entities, isAuthorized over the level-n slice = isAuthorized over the store (decision, determining policies, erroring policies: `level_sound_strict_sets`); per policy incl. linked templates `level_sound_policy`, per environment `level_sound_env`. The two semantic hypotheses are DERIVED from C03\'s strict typechecker soundness (`soundM`) by one induction over `annotate` (`annot_res`): the typed AST evaluates like the condition on the store (if/&&/|| simplifications preserve values and errors since a test typed True evaluates to true or fails), its Entity/Record annotations agree with the values, and it evaluates like the condition on the slice too (the slice violates a C03 premise - it lacks action entities - so dropped operands are justified by level soundness of their guards); `annotate_total`: the typed AST exists whenever the typechecker answers. Differential run: validate_with_level verdicts for n = 0..4 per policy and the level-n slice vs the model; '
  'implementation-level search: slice vs full store authorization for every accepted policy set on conformant requests/stores, monotonicity, '
  'non-vacuity counters (acceptance by level, slice != store, responses changed by a slice two levels lower).',
- 'proof over a hand-written model; the link from typechecker acceptance + conformance to the two semantic hypotheses (Kinds, Faithful) is assumed '
- '(typechecker soundness is proved in C03 for a fragment only) and covered by sampling; policies and schemas are generated (harness/src/c16.rs, '
- 'gen_schema_chain.rs, gen_typed.rs); static policies only')
+ 'proof over a hand-written model (typechecker model `typeOf`/`annotate`, `evaluate`, `Slice.atLevel`), tied to Rust by the differential run; '
+ 'premises of `level_sound_strict`: SchemaWF2, conformant request/store, action entities present, distinct record keys, static policies '
+ '(templates per policy: `level_sound_policy`); permissive mode only on C03\'s permissive fragment; policies and schemas are generated '
+ '(harness/src/c16.rs, gen_schema_chain.rs, gen_typed.rs)')
